@@ -195,6 +195,8 @@ impl Run {
             "cmdq": pending_faults(s),
             "skipped": s.skipped,
             "accepted": one_based(&s.accepted),
+            "droppedNoHandle": s.dropped.iter().filter(|d| d.1).map(|d| d.0 + 1).collect::<Vec<_>>(),
+            "droppedOther": s.dropped.iter().filter(|d| !d.1).map(|d| d.0 + 1).collect::<Vec<_>>(),
             "finished": one_based(&s.finished),
             "wstate": s.wstate, "sstatus": s.sstatus, "now": s.now_ms,
             "pe": self.events(s), "scriptsEmpty": s.scripts_empty,
@@ -328,6 +330,7 @@ fn run_schedule(run_id: usize, sch: &Value, dir: &str, trace: &mut Trace) -> Val
         // worker-side bookkeeping for the Worker.tla predicates
         let prev_stop = run.stop_sent.clone();
         let prev_total: Vec<i64> = (0..w).map(|i| prev.chan[i].max(0) + prev.inprog[i].len() as i64).collect();
+        let prev_live: Vec<i64> = (0..w).map(|i| prev.inprog[i].len() as i64).collect();
         let mut reply_now = vec!["none".to_string(); w];
         for i in 0..w {
             if prev.stop_reply[i] == -1 && s.stop_reply[i] != -1 {
@@ -355,7 +358,7 @@ fn run_schedule(run_id: usize, sch: &Value, dir: &str, trace: &mut Trace) -> Val
         };
         let mut rec = json!({"ev": "step", "run": run_id, "k": k, "do": d, "q": q,
             "pe": pe && d == "Iter", "ndisp": ndisp, "st": run.project(&s),
-            "polled": polled_workers, "prevStop": prev_stop, "prevTotal": prev_total, "replyNow": reply_now,
+            "polled": polled_workers, "prevStop": prev_stop, "prevTotal": prev_total, "prevLive": prev_live, "replyNow": reply_now,
             "prevWstate": prev.wstate, "prevSstatus": prev.sstatus,
             "shutdownSince": run.shutdown_since, "shutdownMs": run.shutdown_ms});
         if d != "Iter" && d != "Settle" {
